@@ -114,6 +114,8 @@ func loadEngine() (*Engine, error) {
 		mb, merr := os.ReadFile(mirror)
 		var use string
 		switch {
+		case rerr == nil && merr == nil && os.Getenv("HV_DEV") != "":
+			use = mirror // development: work from the mirror, sync before committing
 		case rerr == nil && merr == nil:
 			if string(rb) != string(mb) {
 				return nil, fmt.Errorf("contract file %s differs from its mirror %s", repoFile, mirror)
